@@ -53,6 +53,12 @@ def check(run, prog, tier):
     run.rule("C18-H", "exporters and importers of basis- or units-managed classes move the values through the managed "
                       "property, never through its raw storage", minimum=8)
     rule_H(run, prog)
+    run.rule("C18-J", "importers hand internal values to units-managed setters only under internal units (rule of C05-U16, "
+                      "load/import functions)", minimum=10)
+    from . import c05
+    from ..report import RuleProxy
+    c05.rule_U16(RuleProxy(run, "C18-J", keep=lambda construct, key: any(w in construct for w in ("load", "import", "Load", "Import"))), prog,
+                 always=lambda f: any(w in f.name for w in ("load", "import", "Load", "Import")))
     run.rule("C18-I", "exported arrays can hold what is put into them (axis next to data), and what a format cannot represent "
                       "(the rank of one-dimensional data in a Matlab file) is stored with the data and restored", minimum=4)
     rule_I(run, prog)
